@@ -261,7 +261,13 @@ func raftTrial(out *childOut, r *Rng, t int, thorough bool) {
 			b := 1 + r.Intn(4)
 			for i := 0; i < b; i++ {
 				seq++
-				propose(n, fmt.Sprintf("t%d-p%d", t, seq))
+				pl := fmt.Sprintf("t%d-p%d", t, seq)
+				if seq%5 == 3 {
+					// a large entry among small ones: a follower that catches up from the leader's stored log
+					// is sent size-limited reads (MaxSizePerMsg 4096) that must stop at it, not step over it
+					pl += "-" + strings.Repeat("x", 3300)
+				}
+				propose(n, pl)
 			}
 			out.Local("propose x%d via %d", b, n.id)
 		case k < 55:
